@@ -178,6 +178,21 @@ def r3_line_grammar(ctx: Ctx) -> None:
 
 
 
+def r4_string_operand(ctx: Ctx) -> None:
+    """the .text string is the quoted token without its two quote characters, whatever it ends with (shared with C07.R4)"""
+    from .c07 import quoted_string_strip
+
+    quoted_string_strip(ctx)
+
+
+def r5_enclosing_table_stays_reachable(ctx: Ctx) -> None:
+    """`nested scopes use the enclosing scope's table`: get_table walks outwards through `if self.parent:`; a scope class with its
+    own truthiness cuts the walk at an empty scope (shared with C08.R3's truthiness clause)"""
+    from .c08 import scope_truthiness
+
+    scope_truthiness(ctx)
+
+
 def rb_binding_agreement(ctx: Ctx) -> None:
     from ..ownership import binding_agreement
 
@@ -191,4 +206,4 @@ def rm_no_process_lifetime_results(ctx: Ctx) -> None:
     state_rule(ctx)
 
 
-RULES = [r1_longest_match, r2_scoping, r3_line_grammar, rb_binding_agreement, rm_no_process_lifetime_results]
+RULES = [r1_longest_match, r2_scoping, r3_line_grammar, r4_string_operand, r5_enclosing_table_stays_reachable, rb_binding_agreement, rm_no_process_lifetime_results]
